@@ -193,6 +193,11 @@ func ConvertGRPCMatches(grpcMatches []v1.GRPCRouteMatch) []v1.HTTPRouteMatch {
 	hms := make([]v1.HTTPRouteMatch, 0, len(grpcMatches))
 
 	for _, gm := range grpcMatches {
+		// each match starts from the default path: a match without a method must not inherit the
+		// path of the previous match.
+		pathValue := "/"
+		pathType := v1.PathMatchType("PathPrefix")
+
 		var hm v1.HTTPRouteMatch
 		hmHeaders := make([]v1.HTTPHeaderMatch, 0, len(gm.Headers))
 		for _, head := range gm.Headers {
